@@ -422,8 +422,16 @@ def lib_eligible(prog):
     file-level variable (an exported function must not capture variables of the client) and call only functions
     that can be moved as well."""
     info = {}
+
+    def unit_local(x):
+        """mentions a macro, a domain defined in the file or an exception: those are rendered in the preamble of one unit"""
+        if isinstance(x, dict):
+            return x.get("e") in ("mac", "dcall", "try", "throw") or any(unit_local(v) for v in x.values())
+        return isinstance(x, list) and any(unit_local(v) for v in x)
     for i, f in enumerate(prog["funs"]):
         free, calls = _fun_refs(f["body"], f["ps"])
+        if unit_local(f["body"]) or f.get("oname", f["name"]) != f["name"]:
+            free = free | {"<unit-local>"}
         info[i] = (free, calls)
     ok = set(i for i, (free, _) in info.items() if not free)
     changed = True
